@@ -151,9 +151,10 @@ def record_one(spec):
         valid = bool(pair.is_valid)
     except Exception as ex:  # C14's business; here the behaviour is just not usable
         return [{"e": "C", "spell": spec.get("spell", "?"), "large": large, "valid": False, "text": [], "bg": [],
-                 "raised": type(ex).__name__}]
+                 "raised": type(ex).__name__, "mustParse": bool(spec.get("mustParse", False))}]
     if not valid or not is_rgb_ints(pair.text.rgb) or not is_rgb_ints(pair.bg.rgb):
-        return [{"e": "C", "spell": spec.get("spell", "?"), "large": large, "valid": False, "text": [], "bg": [], "raised": ""}]
+        return [{"e": "C", "spell": spec.get("spell", "?"), "large": large, "valid": False, "text": [], "bg": [], "raised": "",
+                 "mustParse": bool(spec.get("mustParse", False))}]
     t_rgb, b_rgb = tuple(pair.text.rgb), tuple(pair.bg.rgb)
     # the pair the CALLER gave is what the properties speak about: where a side is an opaque CSS Color 3 value, its meaning is
     # the CSS one (independent exact reader, calibrated against CssColor.tla in C07).  The library's own reading is used as long
